@@ -206,7 +206,7 @@ func init() {
 		replay := loadReplay(&rin)
 		for i := 0; i < n; i++ {
 			every := 23 + rng.Intn(30)
-			in := raceInput{Preview: 1, Trigger: 2, Frames: 150 + rng.Intn(60), Conns: 1, Requesters: every, PauseUs: []int{0, 40}[i%2], Const: i%2 == 0, DynOff: i%2 == 1, Throttle: i%2 == 1}
+			in := raceInput{Preview: 1, Trigger: 2, Frames: 150 + rng.Intn(60), Conns: 1, Requesters: every, PauseUs: []int{0, 40}[i%2], Const: i%2 == 0 && constOK, DynOff: i%2 == 1, Throttle: i%2 == 1}
 			switch i % 4 {
 			case 2:
 				// the camera reconnects: the same request offsets again on the second connection
